@@ -127,7 +127,7 @@ fn c10_for(lname: &str, comp: Comp, thorough: bool, seed: u64) -> Vec<CaseOut> {
     if let Some(sep) = created.get("NoConcat") {
         let files = sep.files.clone();
         let perms = permutations(files.len());
-        let perms: Vec<Vec<usize>> = if thorough || files.len() <= 3 { perms } else { perms.into_iter().step_by(5).collect() };
+        let perms: Vec<Vec<usize>> = if thorough || files.len() <= 5 { perms } else { perms.into_iter().step_by(5).collect() };
         let mut first_cat: Option<PathBuf> = None;
         for (k, perm) in perms.iter().enumerate() {
             let d = base.path().join(format!("cat{k}"));
@@ -256,11 +256,11 @@ fn c10(args: &Args) -> ! {
     configs.push(("multi2", Comp::Zstd(5)));
     configs.push(("small", Comp::None));
     configs.push(("multi2", Comp::None));
+    configs.push(("small", Comp::Lz4(3)));
+    configs.push(("small", Comp::Lzma(1)));
+    configs.push(("multi2", Comp::Lz4(3)));
+    configs.push(("multi2", Comp::Lzma(1)));
     if t {
-        configs.push(("small", Comp::Lz4(3)));
-        configs.push(("small", Comp::Lzma(1)));
-        configs.push(("multi2", Comp::Lz4(3)));
-        configs.push(("multi2", Comp::Lzma(1)));
         configs.push(("big", Comp::Zstd(5)));
         configs.push(("big", Comp::None));
     }
